@@ -119,6 +119,21 @@ NA_REASON = {
  "C15": "concurrency and PLY process-global aliasing: thread schedules and object-identity histories are not data the available solver engines (CrossHair single-threaded per-path re-execution, z3 over tables) can quantify over; see DESIGN.md section 4",
 }
 
+LRBMC = "; z3 bit-blasted bounded model checking of the regenerated LALR automaton (step lemmas: no error, stack returns, one fold per item)"
+CLAIMED["C01"]["technique"] += LRBMC
+CLAIMED["C17"]["technique"] += LRBMC
+CLAIMED["C11"]["technique"] += LRBMC + " in the thorough tier"
+CLAIMED["C01"]["text"] += " LR step lemmas (z3 BMC of the automaton): from the stack after a column's name and type, every core option followed by any option start returns to the same stack with one defcolumn fold, and the last option followed by ',' or ')' folds the column into the table once - so the number and order of options and columns is unbounded at the grammar level."
+CLAIMED["C17"]["text"] += " LR step lemma: every option form followed by any option start or end of input returns to the stack [0, expr] with exactly one fold - any subset, order and number of options."
+CLAIMED["C11"]["text"] += " Thorough: one LR step lemma per catalogued clause (33) - followed by the first token of any other clause of its dialect or end of input the automaton returns to [0, expr] without error."
+CLAIMED["C03"]["text"] += " Further lemmas: lexing never writes into the module-level keyword tables (relational lexer obligations in four contexts; violations replayed with polluting / victim statement pairs in fresh interpreters); skeleton-building actions hand out fresh lists and dicts; scripts of two and three catalogued one-line statements yield the concatenation of what each yields alone (parser stubbed by the identity)."
+CLAIMED["C05"]["text"] += " Line layout: up to 2 [3] line breaks at symbolic token gaps, indentation and a blank line give the one-line statement (4 statement kinds); 16 catalogued statements with every marked keyword lower-cased / Capitalized through the whole pipeline equal their upper-case spelling; parse_from_file reads in text mode with universal newlines."
+CLAIMED["C13"]["text"] += " End to end: three different catalogued statements (7 entity kinds, four SET spellings, DROP TABLE, commented table, skipped line) through the whole pipeline: every flat entity sits in exactly one bucket, order kept."
+CLAIMED["C14"]["text"] += " Options without a dataclass field are reported in written order (never a set order); skeleton actions share no mutable sub-object between calls."
+CLAIMED["C16"]["text"] += " The silent setting passed through parse_from_file's settings dict reaches every call and the dict is not modified; ALTER keywords in any case style are typed as keywords (supported statements stay supported)."
+CLAIMED["C19"]["text"] += " cli.main walks a directory and parses each DDL-extension entry exactly once under its own path; dump_data_to_file writes exactly the JSON of what it is given (list, grouped dict or table dict)."
+
+
 def main():
     checks = []
     for pid in ALL:
